@@ -875,6 +875,12 @@ class Inliner:
                     nm0 = ast.Name(id=res, ctx=ast.Load())
                     dtest = ast.UnaryOp(op=ast.Not(), operand=nm0) if isinstance(st.test, ast.UnaryOp) else nm0
             thread = tested is not None and _size(tested.body) + _size(tested.orelse) <= 12
+            if thread and _own_jumps(list(tested.body) + list(tested.orelse)) and any(
+                    isinstance(r_, ast.Return) for lp in _walk_no_defs(hn) if isinstance(lp, (ast.For, ast.While, ast.AsyncFor))
+                    for r_ in ast.walk(lp)):
+                # the decided branch holds a break / continue of the CALLER's loop: copied to a return site inside a loop of the
+                # helper it would leave that loop instead
+                thread = False
             after_label = label + "a"
             nthreaded = [0]
 
